@@ -128,6 +128,28 @@ def InBounds : List Nat → List Nat → Prop
   | i :: is, n :: s => i < n ∧ InBounds is s
   | _, _ => False
 
+/-- `InBounds` is decidable: the driver's `ravel` answers `err value` (NumPy's `ValueError`) exactly
+when it is false. -/
+def InBounds.dec : (idx s : List Nat) → Decidable (InBounds idx s)
+  | [], [] => .isTrue trivial
+  | i :: is, n :: s =>
+    match InBounds.dec is s with
+    | .isTrue h => if hi : i < n then .isTrue ⟨hi, h⟩ else .isFalse fun h' => hi h'.1
+    | .isFalse h => .isFalse fun h' => h h'.2
+  | [], _ :: _ => .isFalse fun h => h
+  | _ :: _, [] => .isFalse fun h => h
+
+instance (idx s : List Nat) : Decidable (InBounds idx s) := InBounds.dec idx s
+
+/-- `np.ravel_multi_index(idx, shape)` with its check: `ValueError` for an index that is out of
+bounds or of the wrong length. -/
+def ravelChecked (s idx : List Nat) : Except Err Nat :=
+  if InBounds idx s then .ok (ravel s idx) else .error .value
+
+/-- `np.unravel_index(k, shape)` with its check: `ValueError` when `k` is not below the size. -/
+def unravelChecked (s : List Nat) (k : Nat) : Except Err (List Nat) :=
+  if k < prod s then .ok (unravel s k) else .error .value
+
 /-- element at a multi-index (no bounds check beyond the flat one) -/
 def Arr.at (a : Arr) (idx : List Nat) : Option Rat := a.data[ravel a.shape idx]?
 
